@@ -6,5 +6,11 @@ if ! lib/instr_build.sh harness/c17 "$w/bin" 2> "$w/build.log"; then
   cat "$w/build.log" >&2; echo "TOOL-ERROR: instrumented build failed" >&2; exit 2
 fi
 [ "${1:-}" = "--warm" ] && exit 0
+# separate free-running race pass: a twin in which only the in-memory wire replaces the gRPC clients (no scheduler
+# hooks: real goroutines, real sync) built with the race detector
+# (checkptr off: the repository's SIMD wrappers pass lengths as unsafe.Pointer)
+if ! INSTR_FLAGS=-wire-only lib/instr_build.sh harness/c17 "$w/bin-race" -race -gcflags=all=-d=checkptr=0 2> "$w/build2.log"; then
+  cat "$w/build2.log" >&2; echo "TOOL-ERROR: race build failed" >&2; exit 2
+fi
 { flock -u 9 && exec 9>&-; } 2>/dev/null  # the build is done: release the shared lock on /repo's working tree (.work/repo.lock)
-exec "$w/bin" "$@"
+VERIF_C17_RACE="$w/bin-race" exec "$w/bin" "$@"
